@@ -6,7 +6,7 @@ CONSTANTS
   Keys = {"k16", "kEmpty", "k1", "k200", "kColon", "kSpace", "kPunct", "k24", "kDigits", "kEq", "kUtf8", "k1000"}
   ScriptKey = "k16"
   Modes = {"blocking", "nonblocking"}
-  Echoes = {TRUE, FALSE}
+  Echoes = {TRUE}
   Plans = {"whole", "hdr", "ext", "key", "pay", "each", "bytes"}
   Frames <- FramesThorough
   MaxFrames = 3
